@@ -14,8 +14,8 @@
    The resolver, flatten/lowering and the rest of the back end are tied by the correspondence and
    end-to-end streams of vplib/props/c04*.py, not by proof. *)
 From Coq Require Import List ZArith QArith NArith Bool Permutation.
-From PV Require Import Lib.ListX Model.Rel Model.Window Model.Frame Model.WindowFns Model.WinReorder Model.WinAtomic Model.SplitBase
-  Gen.GenSplit Gen.GenWindow Proofs.RelFacts Proofs.FrameProofs Proofs.WindowProofs Proofs.WinReorderProofs Proofs.WinAtomicProofs.
+From PV Require Import Lib.ListX Model.Rel Model.Window Model.Frame Model.WindowFns Model.WinReorder Model.WinAtomic Model.WinLower Model.SplitBase
+  Gen.GenSplit Gen.GenWindow Proofs.RelFacts Proofs.FrameProofs Proofs.WindowProofs Proofs.WinReorderProofs Proofs.WinAtomicProofs Proofs.WinLowerProofs.
 Import ListNotations.
 Local Open Scope Z_scope.
 
@@ -418,6 +418,33 @@ Theorem c04_gen_can_materialize_is_le :
   forallb (fun a => forallb (fun b => Bool.eqb (can_materialize a b) (cx_leb code_req_tables a b)) all_cx) all_cx = true.
 Proof. vm_compute. reflexivity. Qed.
 Print Assumptions c04_gen_can_materialize_is_le.
+
+(* ---------------------------------------------------------------- (c3) lowering.rs: which window a column is handed *)
+(* Model/WinLower.v: the Lowerer's `window` field (set for the transform call AFTER the call's partition columns and sort
+   keys are lowered, taken by Aggregate / Take, None again at the end) and declare_as_column's choice; the real traces
+   (hook verif:lowerer_op) are replayed by `lreplay` on every compile.  For EVERY pipeline the trace lower_pipeline
+   produces is one declare_as_column agrees with: *)
+Theorem c04_lowerer_trace_replays : forall p, lreplay None (ops_of_pipeline p) = true.
+Proof. exact pipeline_replays. Qed.
+Print Assumptions c04_lowerer_trace_replays.
+
+(* FULL STATEMENT (false, F51):  every column that needs a window is handed the window of the transform call it is lowered for
+     forall c n g, In (n, g) (key_windows c ++ body_windows c) -> n = true -> g = Some (tc_win c)        (non-aggregate calls)
+   It holds for the columns a derive / select / filter / sort defines; the columns of an aggregate get none (they are
+   aggregations); the partition columns and SORT KEYS of the call are lowered while the field is still None: *)
+Theorem c04_lowerer_window_partial : forall c cols n g,
+  (tc_body c = BColumns cols -> In (n, g) (body_windows c) -> g = if n then Some (tc_win c) else None) /\
+  (tc_body c = BAggregate cols -> In (n, g) (body_windows c) -> g = None).
+Proof. intros c cols n g. split; [apply body_column_gets_window | apply aggregate_column_gets_none]. Qed.
+Print Assumptions c04_lowerer_window_partial.
+
+Theorem c04_lowerer_window_refuted : exists c n g, In (n, g) (key_windows c) /\ n = true /\ g <> Some (tc_win c) /\
+  forall c' n' g', In (n', g') (key_windows c') -> g' = None.
+Proof.
+  exists (mk_tcall [true] 1%N (BColumns [])), true, None. split; [left; reflexivity|]. split; [reflexivity|]. split; [discriminate|].
+  exact key_column_gets_none.
+Qed.
+Print Assumptions c04_lowerer_window_refuted.
 
 (* ---------------------------------------------------------------- (d) rows are kept *)
 Theorem c04_window_preserves_rows : forall fr keys cols l,
